@@ -197,6 +197,23 @@ def _int_component(site, name, a, V, hist):
     return r.astype(np.int64)
 
 
+def _refused_call(obj, cache_of, V, site, h, counters):
+    """A call the quantiser refuses (voltages=None raises at a refresh point and at any other) is not a call: the cached
+    estimates are as before and -- checked by the calls that follow against the reference, which does not count it -- so is
+    the refresh schedule.  Returns False when the history cannot be continued."""
+    before = cache_of()
+    try:
+        obj.quantize(None)
+    except Exception:
+        counters['refused_calls'] = counters.get('refused_calls', 0) + 1
+        if cache_of() != before:
+            V(site, 'refused_call_changed_cache', 'quantize(None) raised but changed the cached estimates %r -> %r' % (before, cache_of()), h)
+            return False
+        return True
+    counters['refusal_not_refused'] = counters.get('refusal_not_refused', 0) + 1
+    return False
+
+
 def case_hist(c):
     """One configuration; all operation sequences of length c['depth'] over {q(a0), q(a1), q(a2), reset}."""
     import setigen.voltage.quantization as Q
@@ -281,6 +298,9 @@ def case_hist(c):
             elif is_real:
                 tag = ops[op][0]
                 x = arrays[tag]
+                if c.get('refuse') and not _refused_call(obj, lambda: _cache_tuple(obj.stats_cache), V, site, h, counters):
+                    done[h] = FAIL
+                    return None
                 plan = part.advance(tag, custom)
                 const_in = part.order[tag][2] and plan.data_std == 0      # the stated zero-variance case
                 before = _cache_tuple(obj.stats_cache)
@@ -321,6 +341,10 @@ def case_hist(c):
             else:
                 ta, tb = ops[op]
                 z = zs[op]
+                if c.get('refuse') and not _refused_call(obj, lambda: (_cache_tuple(obj.stats_cache_r), _cache_tuple(obj.stats_cache_i)),
+                                                         V, site, h, counters):
+                    done[h] = FAIL
+                    return None
                 plan_r, plan_i = part_r.advance(ta, cr), part_i.advance(tb, ci)
                 const_in = (part_r.order[ta][2] and plan_r.data_std == 0 and
                             part_i.order[tb][2] and plan_i.data_std == 0)
@@ -646,6 +670,8 @@ def run(ctx):
         name = b.pop('name')
         cases = _hist_cases(seed, **b)
         if name == 'A':
+            # every quantising call preceded by a refused one (sub-box: first target pair, all periods / N / customs / bits)
+            cases += [dict(cc, refuse=True) for cc in cases if (cc['tm'], cc['fwhm']) == (TMEAN[0], FWHM[0])]
             # the class interface with its integer settings as numpy fixed-width integers (sub-box: first target pair)
             cases += [dict(cc, itype=it) for cc in cases if (cc['tm'], cc['fwhm']) == (TMEAN[0], FWHM[0]) and cc['custom'] == 'none'
                       for it in ('uint8', 'int8', 'int16', 'int64')]
